@@ -1240,6 +1240,22 @@ func (m *Manager) Unlock(ns walletdb.ReadBucket, passphrase []byte) error {
 	// Use the crypto private key to decrypt all of the account private
 	// extended keys.
 	for _, manager := range m.scopedManagers {
+		// An account with addresses waiting for their private keys may
+		// have been dropped from the account cache in the meantime
+		// (InvalidateAccountCache). Load it now, so that its private
+		// account key is decrypted below like that of every other
+		// cached account; loading it later, while the manager is still
+		// flagged locked, would cache it without its private key.
+		for _, info := range manager.deriveOnUnlock {
+			_, err := manager.loadAccountInfo(
+				ns, info.managedAddr.InternalAccount(),
+			)
+			if err != nil {
+				m.lock()
+				return err
+			}
+		}
+
 		for account, acctInfo := range manager.acctInfo {
 			// Watch-only accounts (imported extended public keys)
 			// have no encrypted private key to decrypt.
